@@ -81,7 +81,10 @@ impl CompressionAlgorithm {
         compressed: Bytes,
         size_hint: usize,
     ) -> Result<Bytes, CompressionError> {
-        let mut output = Vec::with_capacity(size_hint);
+        let mut output = LimitedOutput {
+            buf: Vec::with_capacity(size_hint),
+            limit: size_hint,
+        };
         match self {
             #[cfg(feature = "lzma-compression")]
             CompressionAlgorithm::Lzma => {
@@ -100,7 +103,30 @@ impl CompressionAlgorithm {
                 brotli_decompressor::BrotliDecompress(&mut input_slice, &mut output)?;
             }
         }
-        Ok(Bytes::from(output))
+        Ok(Bytes::from(output.buf))
+    }
+}
+
+/// Output buffer which refuses to grow beyond the size the chunk is expected to
+/// decompress to, whatever the compressed data expands to.
+struct LimitedOutput {
+    buf: Vec<u8>,
+    limit: usize,
+}
+
+impl std::io::Write for LimitedOutput {
+    fn write(&mut self, data: &[u8]) -> std::io::Result<usize> {
+        if data.len() > self.limit - self.buf.len() {
+            return Err(std::io::Error::new(
+                std::io::ErrorKind::InvalidData,
+                "decompressed data is larger than the chunk",
+            ));
+        }
+        self.buf.extend_from_slice(data);
+        Ok(data.len())
+    }
+    fn flush(&mut self) -> std::io::Result<()> {
+        Ok(())
     }
 }
 
